@@ -2,6 +2,7 @@
 import re
 from sa.rules import *
 import rules.C01 as C01
+import rules.shared as shared
 RC = "remote_connection::RenetClient"
 
 def pushed_into(t, f, local):
@@ -94,4 +95,6 @@ def rules(t):
                 v = fmt(t.stored(s))
                 if not re.search(r"^P2\((sequence|largest_ack)\)$|^\(P2\((sequence|largest_ack)\) AddWithOverflow 1\)\.0$|pending_acks.*\.end$", v): r.bad(f"{f.path}|store|{v[:30]}", s, f"range bound set to {v[:60]}, not to the acknowledged sequence (+1) or a neighbour's end")
     out.append(r)
+    out.append(shared.ack_once(t, "C08.f"))
+    out.append(shared.seq_unique(t, "C08.g"))
     return out
